@@ -84,6 +84,7 @@ type core struct {
 	createRelease  chan struct{}
 	vers2          map[string]bool // versions written by calls of phase 2 (not the tenure under study)
 	hardOdd        []string        // things no delay can cause
+	contFault      bool            // the next Create of contender 2 fails with a transient error
 	waited         bool            // scenario "waited": the acquisition of the holder is waiting for another Locker
 	shortLease     string          // scenario "waited": the created record was short of call time + lease
 
@@ -452,6 +453,11 @@ func (v contView) Create(ctx context.Context, r kvs.Record) (string, error) {
 	c := v.c
 	c.mu.Lock()
 	defer c.mu.Unlock()
+	if v.n == 2 && c.contFault {
+		// a transient failure of the contender's request (it never reaches the store): the attempt gives up, nothing else
+		c.contFault = false
+		return "", errInjected
+	}
 	exp := c.rel(r.ExpiresAt)
 	t0 := c.ts()
 	ver, err := c.inner.Create(ctx, r)
